@@ -451,7 +451,7 @@ def product_by_reference(chk, repo, clause):
     from .common import agrees_with_reference
     from .extent_rules import extent_inline
     inl = extent_inline(repo) + [f.key for f in repo.all_functions() if f.module.name == 'field' and f.cls is None
-                                 and f.name.startswith('_mul')]
+                                 and f.name.startswith('_')]
     cls = repo.cls('field.Field')
     agrees_with_reference(chk, clause, repo, 'field.Field._mul_array', MUL_ARRAY_REFERENCE,
                           'product of two fields = reference construction', inline=inl,
